@@ -644,12 +644,16 @@ def check_property(pid, tier, seed):
                 # call inside the unit (call graph read off the generated file by name: an over-approximation)
                 reach = call_closure(r["meta"], r["rs"], [f["id"] for f in r["meta"]["functions"] if pid in f["props"]])
                 for f in r["failures"]:
-                    if pid not in f["props"] and ((f["fn"] or "") in reach or pid in fprops.get(f["fn"] or "", [])):
+                    if pid in f["props"]:
+                        continue
+                    # a failure outside every extracted function is a lemma / spec-level failure of the sidecar: callers
+                    # assume the lemma's statement, so every property served by the unit is affected (conservative)
+                    if not f["fn"] or f["fn"] not in fprops or f["fn"] in reach or pid in fprops.get(f["fn"], []):
                         basis_fail.append(f)
             if basis_fail:
                 cov["failed_clauses_of_other_properties_in_functions_this_proof_relies_on"] = sorted(set("%s (%s)" % (f["label"], ",".join(f["props"])) for f in basis_fail))
                 raise Inconclusive("the proof of %s is modular: it relies on the contract of %s, and a clause of that contract failed (%s, labelled for %s); undecided for %s" %
-                                   (pid, sorted(set(f["fn"] for f in basis_fail))[:3], sorted(set(f["label"] for f in basis_fail))[:3], sorted(set(p for f in basis_fail for p in f["props"])), pid))
+                                   (pid, sorted(set((f["fn"] or "a lemma of the sidecar") for f in basis_fail))[:3], sorted(set(f["label"] for f in basis_fail))[:3], sorted(set(p for f in basis_fail for p in f["props"])), pid))
         failed_labels = set(f["label"] for f in relevant_fail)
         # body obligations: one per verus-checked function (exec fn or lemma) in the units
         body_obl = [(u, fnname) for (u, fnname, ok, _, _) in fn_rows]
